@@ -485,6 +485,10 @@ func (o *allocOracle) keepOracle(s *ctlSys, hist []verifrt.Event, prop string, s
 				}
 				if _, _, prefer, _ := refalloc.Families(svcs[h]); prefer && len(hRef) == 1 && hAdm {
 					takenBy = "preferdualstack-service-topping-up-its-second-family"
+					if len(refIPs) == 2 {
+						// services with two recorded addresses are re-asserted before those with one: this must not happen at all
+						takenBy += "-from-a-service-with-two-recorded-addresses"
+					}
 				}
 			}
 		}
